@@ -635,8 +635,22 @@ func walkTier(r *vh.Rng, out *vh.Out, tier string) map[string]interface{} {
 		sc.steps = steps
 		emit(sc, "c/"+cls)
 	}
+	// walks under prefetch values whose threshold `int((1 - prefetch) * numRows)` is a matter of float rounding
+	// (not modelled: the rows do not depend on the threshold, C15_walk_rows_spec holds for every position function):
+	// compared as op `walk` only — strides, rows, final error
+	nCancelEnd := len(jobs)
+	oddPrefetches := []string{"0.1", "0.3", "0.7", "0.9", "0.99", "0.01", "0.333", "2", "-0.5"}
+	no := 500
+	if tier == "thorough" {
+		no = 8000
+	}
+	for i := 0; i < no; i++ {
+		sc, cls := g.random()
+		sc.prefetch = oddPrefetches[r.Intn(len(oddPrefetches))]
+		emit(sc, "odd-prefetch/"+cls)
+	}
 	opOf := func(i int) string {
-		if i >= nWalk {
+		if i >= nWalk && i < nCancelEnd {
 			return "walkc" + strings.TrimPrefix(jobs[i].sc.String(), "walk")
 		}
 		return jobs[i].sc.String()
@@ -657,12 +671,15 @@ func walkTier(r *vh.Rng, out *vh.Out, tier string) map[string]interface{} {
 	}
 	wg.Wait()
 	for i, j := range jobs {
-		if i >= nWalk {
+		if i >= nWalk && i < nCancelEnd {
 			out.Case(opOf(i), res[i], j.cls, true)
 			continue
 		}
 		op := j.sc.String()
 		out.Case(op, reduceWalk(res[i]), j.cls, true)
+		if i >= nCancelEnd {
+			continue
+		}
 		out.Case("walko"+strings.TrimPrefix(op, "walk"), res[i], "o/"+j.cls, true)
 	}
 	return map[string]interface{}{"walk_scenarios": len(jobs)}
